@@ -87,7 +87,7 @@ func fixedETH(now time.Time, src, dst string, number uint64, blockDelay uint64) 
 func fixedBSC(now time.Time, src, dst string, number uint64) *inst {
 	in := &inst{Typ: BSC, Src: src, Seq: 7, Value: pinnedValue}
 	k := bscsim.KeyFromSeed([]byte("c18-pinned"), 0)
-	s := &bscInst{keys: []bscsim.Key{k}, vals: []common.Address{k.Addr}, chainID: 97, epoch: 4, contract: common.BytesToAddress([]byte("pinned-xibc-packet")),
+	s := &bscInst{keys: []bscsim.Key{k}, vals: []common.Address{k.Addr}, nextKeys: []bscsim.Key{k}, nextVals: []common.Address{k.Addr}, chainID: 97, epoch: 4, contract: common.BytesToAddress([]byte("pinned-xibc-packet")),
 		outsider: bscsim.KeyFromSeed([]byte("c18-pinned"), 9)}
 	s.world = fixedWorld(s.contract, src, dst, in.Seq, in.Value)
 	gh := &bscsim.Header{ParentHash: common.BytesToHash([]byte("pinned parent")), UncleHash: bscsim.EmptyUncleHash, Root: s.world.Root(), Number: number,
